@@ -64,7 +64,8 @@ RRT_RULES = [
     (r"while \(const base::State \*st = pis_\.nextStart\(\)\)", "while ((st = pis_nextStart()) != 0)", 0),
     (r"auto \*(\w+) = new Motion\(si_\);", r"MRef \1 = NEW_MOTION_S();", 0), (r"auto \*(\w+) = new Motion;", r"MRef \1 = NEW_MOTION();", 0),
     (r"si_->copyState\(", "copyState(", 0), (r"nn_->add\(", "NN_ADD(", 0), (r"nn_->size\(\)", "NN_SIZE()", 0), (r"nn_->nearest\(", "NN_NEAREST(", 0),
-    (r"return base::PlannerStatus::INVALID_START;", "return ST_INVALID_START;", 0),
+    (r"return base::PlannerStatus::INVALID_START;", "return ST_INVALID_START;", 0), (r"return base::PlannerStatus::TIMEOUT;", "return ST_TIMEOUT;", 0),
+    (r"return base::PlannerStatus::APPROXIMATE_SOLUTION;", "return ST_APPROX;", 0), (r"return base::PlannerStatus::EXACT_SOLUTION;", "return ST_EXACT;", 0),
     (r"if \(!sampler_\)\s*sampler_ = si_->allocStateSampler\(\);", "if (!have_sampler) have_sampler = 1;", 0),
     (r"Motion \*(\w+) = ", r"MRef \1 = ", 0), (r"base::State \*(\w+) = ", r"SRef \1 = ", 0),
     (r"std::numeric_limits<double>::infinity\(\)", "INFD", 0), (r"si_->allocState\(\)", "allocState()", 0), (r"si_->freeState\(", "freeState(", 0),
